@@ -49,6 +49,7 @@ import (
 	"github.com/containerd/stargz-snapshotter/fs/config"
 	commonmetrics "github.com/containerd/stargz-snapshotter/fs/metrics/common"
 	"github.com/containerd/stargz-snapshotter/fs/source"
+	"github.com/containerd/stargz-snapshotter/util/verifhook"
 	rhttp "github.com/hashicorp/go-retryablehttp"
 	digest "github.com/opencontainers/go-digest"
 	ocispec "github.com/opencontainers/image-spec/specs-go/v1"
@@ -480,9 +481,12 @@ func (f *httpFetcher) fetch(ctx context.Context, rs []region, retry bool) (multi
 	}
 
 	// Request to the registry
+	verifhook.Gate("fetcher.beforeURL", f)
 	f.urlMu.Lock()
 	url := f.url
+	verifhook.Event("fetcher.readURL", f, url)
 	f.urlMu.Unlock()
+	verifhook.Gate("fetcher.afterURL", f)
 	req, err := http.NewRequestWithContext(ctx, "GET", url, nil)
 	if err != nil {
 		return nil, err
@@ -553,9 +557,12 @@ func (f *httpFetcher) check() error {
 		ctx, cancel = context.WithTimeout(ctx, f.timeout)
 		defer cancel()
 	}
+	verifhook.Gate("fetcher.beforeURL", f)
 	f.urlMu.Lock()
 	url := f.url
+	verifhook.Event("fetcher.readURL", f, url)
 	f.urlMu.Unlock()
+	verifhook.Gate("fetcher.afterURL", f)
 	req, err := http.NewRequestWithContext(ctx, "GET", url, nil)
 	if err != nil {
 		return fmt.Errorf("check failed: failed to make request: %w", err)
@@ -600,6 +607,7 @@ func (f *httpFetcher) refreshURL(ctx context.Context) error {
 	f.urlMu.Lock()
 	f.url = newURL
 	f.header = headers
+	verifhook.Event("fetcher.setBoth", f, newURL, headers)
 	f.urlMu.Unlock()
 	return nil
 }
